@@ -141,10 +141,18 @@ def observeShell (subj q1 p1 q2 p2 : List Char) : String × String :=
   let star := [PatternChar.normal '*']
   let arm := match caseFirst [pa, pb, star] subj with
     | some 0 => "1" | some 1 => "2" | some _ => "0" | none => "none"
-  let t := trims.map fun (sd, ln) => encChars (trimApply sd ln pa subj)
+  -- `trim::apply` on the expanded word (`trimApplyValue`, Model.lean): scalar and array arm
+  let scalarOf : Value → List Char
+    | .scalar v => v
+    | .array _ => []
+  let arrayOf : Value → List (List Char)
+    | .array vs => vs
+    | .scalar _ => []
+  let t := trims.map fun (sd, ln) => encChars (scalarOf (trimApplyValue sd ln (shellWord q1 p1) (.scalar subj)))
   -- `set -- "$s" "x$s" "$s$s" ""` then `"${@#"$q"$p}"` …: the Array arm of `trim::apply`
   let arr := [subj, 'x' :: subj, subj ++ subj, []]
-  let a := trims.map fun (sd, ln) => ",".intercalate ((trimArray sd ln pa arr).map encChars)
+  let a := trims.map fun (sd, ln) =>
+    ",".intercalate ((arrayOf (trimApplyValue sd ln (shellWord q1 p1) (.array arr))).map encChars)
   let obs := s!"arm={arm} T={",".intercalate t} A={"/".intercalate a}"
   let a1 := specParse pa
   let a2 := specParse pb
@@ -232,9 +240,23 @@ def observeCase (subj : Option (List Char))
       (showCaseE bodies (caseExecEGo subj false 0 itemsE), "-")
     else
       let items := itemsE.map fun (as, c) => (as.filterMap id, c)
-      let obs := showCase bodies (caseExec items subj)
+      -- the whole loop of `case.rs execute` incl. `exit_status_updated` (Model.lean `caseExecute`); the command is
+      -- entered with `$?` = 7; `echo N` leaves 0, `echo N; st 5` leaves 5, an empty body leaves `$?` alone
+      let effect : CaseBody → Nat → Nat
+        | .echo => fun _ => 0
+        | .empty => id
+        | .status => fun _ => 5
+      let itemsM : List CaseItemM := itemsB.map fun ((as, c), b) =>
+        { alts := as.filterMap id, cont := c, bodyEmpty := b == .empty, body := effect b }
+      let r := caseExecute itemsM subj 7
+      let shown := r.1.filter fun i => bodies[i]? != some CaseBody.empty
+      let obs := s!"run={showRun shown} st={r.2}"
+      -- Spec: bodies by the grammar-parsed alternatives, status by XCU 2.9.4.3
       let sitems := items.map fun (as, c) => (as.map specParse, c)
-      let spec := "=" ++ showCase bodies (specCaseExec subj false 0 sitems)
+      let sex := specCaseExec subj false 0 sitems
+      let sshown := sex.filter fun i => bodies[i]? != some CaseBody.empty
+      let sst := specCaseStatus (bodies.map effect) (bodies.map (· == .empty)) 7 sex
+      let spec := s!"=run={showRun sshown} st={sst}"
       (obs, spec)
 
 /-! hand-built syntax trees (`a` cases): atoms joined by `,`; atom = `c<hex>` | `?` | `*` | `b<0|1>(<item>;…)`;
